@@ -291,13 +291,24 @@ def fingerprints(fn, wanted=None):
   return {k: sorted(v) for k, v in fp.items()}
 
 
-def body_fingerprint(fn):
-  """statements of the function with every local, parameter and the
-  function's own name anonymous: the same for a function that was renamed or
-  moved (nested <-> module level)."""
+def outer_names_of(q, fns):
+  """variables of the functions enclosing the nested function q."""
+  out = set()
+  while '.' in q:
+    q = q.rsplit('.', 1)[0]
+    if q in fns:
+      out |= set(bound_names(fns[q])) | set(params(fns[q]))
+  return out
+
+
+def body_fingerprint(fn, outer=()):
+  """statements of the function with every variable (local, parameter,
+  variable of an enclosing function) and the function's own name anonymous:
+  the same for a function that was renamed or moved (nested <-> module level,
+  closure variables <-> explicit parameters)."""
   ps = params(fn)
   pidx = {p: i for i, p in enumerate(ps)}
-  locs = set(bound_names(fn))
+  locs = set(bound_names(fn)) | set(outer)
   inner = nested_names(fn) - locs - set(ps)
   out = []
   for kind, node in _headers(fn):
@@ -308,10 +319,8 @@ def body_fingerprint(fn):
       for x, orig in saved:
         if id(x) in sh:
           x.id = 'C__'
-        elif orig in locs:
-          x.id = 'L__'
-        elif orig in pidx:
-          x.id = 'P__'
+        elif orig in locs or orig in pidx:
+          x.id = 'V__'
         elif orig in inner:
           x.id = 'N__'
         elif orig == fn.name:
@@ -424,7 +433,7 @@ def moved_functions(relpath, tree, notes=None):
   gone = [q for q in ref if q not in fns and ref[q].get('body')]
   fresh = [q for q in fns if q not in ref]
   if gone and fresh:
-    fps = {q: body_fingerprint(fns[q]) for q in fresh}
+    fps = {q: body_fingerprint(fns[q], outer_names_of(q, fns)) for q in fresh}
     pairs = []
     for g in gone:
       for f in fresh:
@@ -506,10 +515,11 @@ def build_reference(root, relpaths):
     except (OSError, SyntaxError):
       continue
     per = {}
-    for q, fn in functions(tree).items():
+    fns_ = functions(tree)
+    for q, fn in fns_.items():
       locs = bound_names(fn)
       fp = fingerprints(fn)
       per[q] = dict(params=params(fn), locals={n: fp.get(n, []) for n in locs},
-                    body=body_fingerprint(fn))
+                    body=body_fingerprint(fn, outer_names_of(q, fns_)))
     out[rel] = per
   return out
